@@ -23,9 +23,9 @@ PROPS = {
         ],
         "floors": {"lenbytes=2": ("job:TestC01", 0.01), "lenbytes=3": ("job:TestC01", 0.003),
                    "nonempty-binary": ("job:TestC01", 0.02), "route:sml-parser": ("job:TestC01", 0.05),
-                   "route:hsms-decoder": ("job:TestC01", 0.05), "route:template+fill": ("job:TestC01", 0.1)},
+                   "route:hsms-decoder": ("job:TestC01", 0.05), "route:template+fill": ("job:TestC01", 0.1), "medium-size-leaf": ("job:TestC01", 0.05)},
         "rule": "rapid-generated complete data messages (header: 128x256 codes, wait bit, boundary+random session ids and system bytes; "
-                "variable-free item trees over the 14 formats incl. payloads straddling the 1|2|3 length-byte borders and deep chains) built by four routes "
+                "variable-free item trees over the 14 formats incl. payloads straddling the 1|2|3 length-byte borders, leaves of medium size (powers of two +-2, any count 7..300) and deep chains) built by four routes "
                 "(constructors / template completed by the three producers in random order / SML parser / output of the HSMS decoder). Oracle: round trip "
                 "hsms.Parse(m.ToBytes()) ok, header fields equal, printed item tree equal, re-encoding equal. Non-trivial: >= 1 element and (>= 2 formats or a "
                 "2+-byte length field or depth >= 2); distinct = FNV-64 of the case.",
@@ -60,7 +60,7 @@ PROPS = {
         "exhaustive": {"quick": False, "thorough": True},
         "rule": "sweep of the header routine (verif-tagged export) over (format, element count): thorough = every count with count*width in 0..16,777,215 plus the next 64 "
                 "(about 136M calls, exhaustive), quick = all counts <= 70000, +-300 around each border, seeded stride beyond; plus real items built through the factories at "
-                "counts {0,1, around 255|256 and 65535|65536, limit-1, limit, limit+1, limit+2} for all 14 formats, encoded, framed and decoded back. Oracle: reference header "
+                "counts {0,1, around 255|256 and 65535|65536, limit-1, limit, limit+1, limit+2} for all 14 formats, encoded, framed and decoded back - at the length-field borders also as a child of a list, alone and between siblings. Oracle: reference header "
                 "(format code, shortest big-endian length, 1/2/3 bytes at exactly 255|256 and 65535|65536, refusal beyond the limit); factory succeeds iff count*width <= 16,777,215; "
                 "ToBytes() non-empty with that header and exact total length; decoder re-encodes to the same bytes. Non-trivial: count > 0; distinct by (format, count) by construction.",
         "assumptions": COMMON_ASSUMPTIONS + ["hook: pkg/ast/export_verif.go (build tag verif) only forwards to the unexported header routine"],
@@ -111,10 +111,10 @@ PROPS = {
         "level": "exploration",
         "jobs": [{"test": "TestC18", "kind": "rapid", "quick": 150000, "thorough": 3000000}],
         "floors": {"refused:session": ("job:TestC18", 0.05), "refused:wait": ("job:TestC18", 0.02), "wait:already-decided": ("job:TestC18", 0.1),
-                   "wait:resolves": ("job:TestC18", 0.1), "start:hsms": ("job:TestC18", 0.05)},
+                   "wait:resolves": ("job:TestC18", 0.1), "start:hsms": ("job:TestC18", 0.05), "fill:item-holding-the-placeholder-name": ("job:TestC18", 0.01)},
         "rule": "rapid-generated messages (complete or not: optional/decided wait bit, with/without session, templates with variables) x histories of 1..6 producer calls "
                 "(SetWaitBit true/false on odd/even functions and on decided wait bits; SetSessionIDAndSystemBytes with session ids -2,-1,0,..,65535,65536,.. and 0..8 system bytes; "
-                "FillVariables with subsets of the bindings, repeated keys and unknown keys). Oracle: 8-field record model; after every call Name/StreamCode/FunctionCode/WaitBit/"
+                "FillVariables with subsets of the bindings, repeated keys, unknown keys and items that themselves hold a variable of the placeholder's name). Oracle: 8-field record model; after every call Name/StreamCode/FunctionCode/WaitBit/"
                 "Direction/SessionID/SystemBytes/Header/String/Variables/ToBytes of the result equal the model's (String against the directly constructed item, ToBytes against the "
                 "reference encoder), the receiver is unchanged, and the call panics iff the model says the result is invalid. Non-trivial: >= 2 calls of >= 2 different producers.",
         "assumptions": COMMON_ASSUMPTIONS,
@@ -153,7 +153,7 @@ PROPS = {
         "jobs": [{"test": "TestC11", "kind": "rapid", "quick": 100000, "thorough": 480000}],
         "floors": {"op:observe": ("job:TestC11", 0.5), "op:decode": ("job:TestC11", 0.3), "op:fill": ("job:TestC11", 0.5)},
         "rule": "rapid-generated histories (2..30 steps) over a growing pool of items, data messages and control messages: build an item from generated arguments (then overwrite the "
-                "argument slices), build a list sharing pooled items, FillVariables on a pooled item/message (then overwrite and extend the map), NewDataMessage/NewHSMSDataMessage from a "
+                "argument slices), build a list sharing pooled items, FillVariables on a pooled item/message with values that vary from call to call - zeros of both signs for floats - (then overwrite and extend the map), NewDataMessage/NewHSMSDataMessage from a "
                 "pooled item, SetWaitBit, SetSessionIDAndSystemBytes (then overwrite the passed bytes), observers ToBytes/Variables/SystemBytes (then overwrite every returned slice in place), "
                 "hsms.Parse of pooled bytes (then overwrite the input buffer), control-message constructors (then overwrite header / system-bytes argument), responses from pooled requests. "
                 "Oracle (history invariant): after every step the snapshot (String, ToBytes, Variables, Size, Name, codes, wait bit, direction, session id, system bytes, Header, Type) of every "
@@ -169,9 +169,9 @@ PROPS = {
                    "size:range": ("job:TestC05", 0.05)},
         "rule": "texts built FROM values: rapid draws 1-3 messages (header, item tree over the 14 types with values, variables, bounded ASCII variables, ellipses) and a speller draws the "
                 "spelling of every literal and keyword (decimal / 0x / 0o / 0b with either-case prefixes and digits, signs, floats as shortest / %e / %f / 25-digit / integer-looking with "
-                "e or E and optional +, strings as quoted runs of any printable ASCII incl. backslash, //, <, >, . split into several runs and character codes in any base, T/F/t/f, type names "
+                "e or E and optional +, strings as quoted runs of any printable ASCII incl. backslash, //, <, >, . split into several runs (also empty ones) and character codes in any base, T/F/t/f, type names "
                 "and header tokens in any case, optional size declarations in all four forms). In a third of the cases one literal that the item type cannot represent (just out of range, "
-                "wrongly typed, non-ASCII, invalid UTF-8, absurdly large) is inserted. Oracle: MUST-ACCEPT texts: no error, one message per written message, header fields and variables equal, "
+                "wrongly typed, non-ASCII, invalid UTF-8, absurdly large; for every integer type incl. the 64-bit ones at random distances beyond the range and around the multiples of the wrap-around modulus) is inserted. Oracle: MUST-ACCEPT texts: no error, one message per written message, header fields and variables equal, "
                 "String() equal to the message constructed directly from the denoted values, and after completion ToBytes() == reference encoding of the denoted values; MUST-REJECT texts: "
                 ">= 1 error and no message. Non-trivial: >= 1 literal that is not a plain decimal/shortest float, or a rejected text.",
         "notes": ["spellings whose denotation is not documented (+5 in an unsigned item, -0, 5. / .5, leading-zero decimals, hex in float items, raw control characters inside quotes) are not generated"],
@@ -228,7 +228,7 @@ PROPS = {
             {"test": "TestC15", "kind": "rapid", "quick": 40000, "thorough": 800000},
         ],
         "floors": {"literal:within": ("job:TestC15", 0.1), "literal:outside": ("job:TestC15", 0.2), "variable:small-bounds": ("job:TestC15", 0.03), "variable:huge-bounds": ("job:TestC15", 0.01)},
-        "rule": "exhaustive: 4 declaration forms x 14 item types x lower, upper, actual element count in 0..5 (literal items, alone and as list children; lists of literal children); ASCII "
+        "rule": "exhaustive: 4 declaration forms x 14 item types x lower, upper, actual element count in 0..5 (literal items, alone and as list children; lists of literal children; ASCII literals also as one run per character plus 1..3 empty runs); ASCII "
                 "variables with every form and bounds 0..5 directly and carried through a list expansion; NewASCIINodeVariable over a grid of (min, max) incl. invalid ones. Random: bounds "
                 "with 1-25 digits incl. 2^31, 2^63, 2^64 borders, blanks inside the brackets, counts near the declared bounds. Oracle: a literal is accepted iff lower <= count <= upper "
                 "(math/big; missing bound = unbounded) and then holds exactly that many elements; otherwise no message and an error at the line/column of the '[' token; an ASCII variable "
@@ -241,8 +241,8 @@ PROPS = {
     "C19": {
         "level": "exploration",
         "jobs": [{"test": "TestC19", "kind": "rapid", "quick": 40000, "thorough": 800000}],
-        "floors": {"shared-variable-name": ("job:TestC19", 0.15), "ellipses-in-2+-texts": ("job:TestC19", 0.05), "warnings-compared": ("job:TestC19", 0.1)},
-        "rule": "2..4 accepted texts (1-2 generated messages each, drawn spellings and layouts, trailing blanks / newline-terminated comments), half of the time re-using the previous "
+        "floors": {"shared-variable-name": ("job:TestC19", 0.15), "ellipses-in-2+-texts": ("job:TestC19", 0.05), "warnings-compared": ("job:TestC19", 0.1), "long-run-of-small-messages": ("job:TestC19", 0.02)},
+        "rule": "2..4 accepted texts (1-2 generated messages each, drawn spellings and layouts, trailing blanks / newline-terminated comments) or a long run of 20-150 small list-heavy messages, half of the time re-using the previous "
                 "text's template so that variable names and ellipses recur, joined by {nothing, blanks, LF, CRLF, TAB, blank line, comment+LF}. Oracle: Parse(join) has no errors and returns "
                 "the concatenation of the individual results (header fields, String(), Variables(), session id, bytes once completed from the printed form); warnings equal in text with "
                 "positions shifted by the known line/column offset. Texts that are not accepted alone are excluded and counted. Non-trivial: >= 2 texts sharing a variable name or both "
@@ -288,9 +288,10 @@ PROPS = {
         ],
         "floors": {"item:lenbytes=2": ("job:TestC02", 0.004), "item:lenbytes=3": ("job:TestC02", 0.001),
                    "msg:incomplete:optional-wait": ("job:TestC02", 0.02), "msg:incomplete:variables": ("job:TestC02", 0.01),
-                   "msg:incomplete:no-session": ("job:TestC02", 0.02)},
+                   "msg:incomplete:no-session": ("job:TestC02", 0.02), "msg:completed-after-staged-ellipsis-fills": ("job:TestC02", 0.01)},
         "rule": "rapid-generated item trees over the 14 formats (boundary+uniform values, element counts straddling 255|256 and 65535|65536, "
-                "deep chains) and complete/incomplete messages, built through the public factories with varying Go argument types; plus enumerations "
+                "deep chains) and complete/incomplete messages, built through the public factories with varying Go argument types; incomplete messages are completed afterwards "
+                "(templates with ellipses in stages: one ellipsis per call with counts 0..2, the last one first, then the generated variables, then the header) and compared with the reference expansion; plus enumerations "
                 "(every I1/U1/B/I2/U2 value singly and all in one item, every element count 0..300 per format, boundary bit patterns of the wide formats, "
                 "F4 bit patterns). Oracle: ToBytes() byte-for-byte equal to the independent SEMI E5/E37 reference encoder; incomplete message/item => empty. "
                 "Non-trivial: the item has >= 1 element, or the message is incomplete for a stated reason; distinct = 64-bit FNV hash of the case.",
